@@ -500,18 +500,75 @@ static void proc_exit(Proc *p, int status)
 	ev("proc %d (%s) exits %d", p->pid, p->prog.c_str(), status);
 }
 
-static int field_cmp(const std::string &a, const std::string &b)
+/* sort(1) keys as given on its command line: -t SEP, -k F[,G] (whole fields, no character offsets or flags).
+ * Key F[,G] runs from the start of field F to the end of field G (end of line without G), bytewise
+ * (C locale); keys are compared in order, last resort is the whole line. */
+struct SortSpec {
+	char sep = '\0';
+	std::vector<std::pair<int, int>> keys;	/* (F, G) with G = 0 for end of line */
+	bool rev = false, uniq = false, ok = true;
+};
+static SortSpec sort_spec(const std::vector<std::string> &argv)
 {
-	/* sort -t^A -k2: key is from start of field 2 to end of line, bytewise (C locale),
-	 * last resort comparison on the whole line */
-	auto key = [](const std::string &s) {
-		size_t i = s.find('\001');
-		return i == std::string::npos ? std::string() : s.substr(i + 1);
-	};
-	int c = key(a).compare(key(b));
-	if (c)
-		return c;
-	return a.compare(b);
+	SortSpec sp;
+	for (size_t i = 1; i < argv.size(); i++) {
+		const std::string &a = argv[i];
+		if (a == "-r")
+			sp.rev = true;
+		else if (a == "-u")
+			sp.uniq = true;
+		else if (a.compare(0, 2, "-t") == 0 && a.size() == 3)
+			sp.sep = a[2];
+		else if (a == "-t" && i + 1 < argv.size() && argv[i + 1].size() == 1)
+			sp.sep = argv[++i][0];
+		else if (a.compare(0, 2, "-k") == 0) {
+			std::string k = a.size() > 2 ? a.substr(2) : i + 1 < argv.size() ? argv[++i] : "";
+			int f = 0, g = 0;
+			char tail = 0;
+			int n = sscanf(k.c_str(), "%d,%d%c", &f, &g, &tail);
+			if (n < 1 || f < 1 || n == 3 || (n == 1 && k.find_first_not_of("0123456789") != std::string::npos))
+				sp.ok = false;
+			sp.keys.push_back({f, n >= 2 ? g : 0});
+		} else
+			sp.ok = false;
+	}
+	return sp;
+}
+static std::string sort_key(const SortSpec &sp, const std::string &s, std::pair<int, int> k)
+{
+	if (!sp.sep)
+		return s;
+	/* field boundaries */
+	size_t start = 0;
+	for (int f = 1; f < k.first; f++) {
+		size_t i = s.find(sp.sep, start);
+		if (i == std::string::npos)
+			return std::string();
+		start = i + 1;
+	}
+	if (k.second == 0)
+		return s.substr(start);
+	size_t end = start;
+	for (int f = k.first; f <= k.second; f++) {
+		size_t i = s.find(sp.sep, end);
+		if (i == std::string::npos)
+			return s.substr(start);
+		if (f == k.second)
+			return s.substr(start, i - start);
+		end = i + 1;
+	}
+	return s.substr(start);
+}
+static int field_cmp(const SortSpec &sp, const std::string &a, const std::string &b, bool last_resort)
+{
+	for (auto &k : sp.keys) {
+		int c = sort_key(sp, a, k).compare(sort_key(sp, b, k));
+		if (c)
+			return c;
+	}
+	if (sp.keys.empty() || last_resort)
+		return a.compare(b);
+	return 0;
 }
 
 /* how many bytes the next pipe transfer may move: taken from the plan's process schedule */
@@ -579,26 +636,25 @@ static bool proc_step(Proc *p)
 				lines.push_back(p->inbuf.substr(s, e - s));
 				s = e + 1;
 			}
-			bool rev = false, uniq = false;
-			for (auto &a : p->argv) {
-				if (a == "-r")
-					rev = true;
-				if (a == "-u")
-					uniq = true;
+			SortSpec sp = sort_spec(p->argv);
+			if (!sp.ok) {
+				std::string cmd;
+				for (auto &a : p->argv)
+					cmd += a + " ";
+				flag(F_UNSIM, "sort started with arguments the stub does not model: %s", cmd.c_str());
 			}
+			bool rev = sp.rev, uniq = sp.uniq;
 			std::stable_sort(lines.begin(), lines.end(), [&](const std::string &a, const std::string &b) {
-				int c = field_cmp(a, b);
+				int c = field_cmp(sp, a, b, !uniq);
 				return rev ? c > 0 : c < 0;
 			});
-			std::string prevkey;
+			std::string prevline;
 			bool have = false;
 			for (auto &l : lines) {
 				if (uniq) {
-					size_t i = l.find('\001');
-					std::string k = i == std::string::npos ? std::string() : l.substr(i + 1);
-					if (have && k == prevkey)
+					if (have && field_cmp(sp, prevline, l, false) == 0)
 						continue;
-					prevkey = k;
+					prevline = l;
 					have = true;
 				}
 				p->outbuf += l;
